@@ -92,7 +92,9 @@ theorem doDespawnWork_ext (s : St) (w : List (Nat × Bool)) : Ext s (doDespawnWo
   split
   · exact Ext.refl s
   · split
-    · exact (despawn1_ext s _).trans (Ext.of_eq rfl)
+    · split
+      · exact (despawn1_ext s _).trans (Ext.of_eq rfl)
+      · exact Ext.of_eq rfl
     · split <;> exact Ext.of_eq rfl
 
 /-- **No frame but the poll takes anything out of a removal buffer.** -/
